@@ -64,11 +64,16 @@ impl Default for Tcp {
 }
 
 impl Tcp {
-    pub fn bytes(&self) -> Vec<u8> {
+    /// the option area exactly as it goes on the wire (padded to a multiple of 4)
+    pub fn opt_area(&self) -> Vec<u8> {
         let mut opts = self.options.clone();
         while opts.len() % 4 != 0 {
             opts.push(self.pad_byte);
         }
+        opts
+    }
+    pub fn bytes(&self) -> Vec<u8> {
+        let opts = self.opt_area();
         let doff = self.data_offset.unwrap_or((5 + opts.len() / 4) as u8) & 0x0f;
         let mut b = Vec::with_capacity(20 + opts.len() + self.payload.len());
         b.extend_from_slice(&self.sport.to_be_bytes());
